@@ -381,6 +381,7 @@ type sdoc struct {
 	js, kv, xt, xl []span
 	kws            []string
 	affix          []string
+	toks           []string
 }
 
 func newSdoc(b []byte, kws []string) *sdoc {
@@ -497,6 +498,22 @@ var structOps = func() []sop {
 			return kvall(d)
 		}, func(d *sdoc, t int) []byte { return splice(d.b, d.kv[t].a, d.kv[t].b, d.affix[i]) }})
 	}
+	// single-value files (a version file, portage's PF, a pid file): the WHOLE content replaced by each of its own components and by short tokens
+	for i := 0; i < 40; i++ {
+		i := i
+		ops = append(ops, sop{"tok" + strconv.Itoa(i), func(d *sdoc) []int {
+			if i >= len(d.tokens()) {
+				return nil
+			}
+			return []int{0}
+		}, func(d *sdoc, _ int) []byte {
+			t := d.tokens()[i]
+			if bytes.HasSuffix(d.b, []byte("\n")) && i%2 == 0 {
+				t += "\n"
+			}
+			return []byte(t)
+		}})
+	}
 	xall := func(d *sdoc) []int { return shallowFirst(d.xt, func(span) bool { return true }) }
 	for i, tok := range xmlTokens {
 		tok := tok
@@ -506,6 +523,37 @@ var structOps = func() []sop {
 		func(d *sdoc, t int) []byte { return splice(d.b, d.xl[t].a, d.xl[t].b, "") }})
 	return ops
 }()
+
+var shortTokens = []string{"r1", "1", "1.0", "-", "--", "-1", "a", "a-", "-a", "a-1", "_", ".", "r", "v1", "0", "-r1", "a-r1", "a-1-r1", "1-r1", " r1 "}
+
+// tokens: for a small text file of at most four lines, its components (split at - _ . / : @ = and blanks), the last two and the first two of them
+// joined again, and shortTokens; nil for anything else.
+func (d *sdoc) tokens() []string {
+	if d.toks != nil || len(d.b) == 0 || len(d.b) > 256 || !utf8.Valid(d.b) || bytes.Count(d.b, []byte("\n")) > 4 || bytes.IndexByte(d.b, 0) >= 0 {
+		return d.toks
+	}
+	txt := strings.TrimSpace(string(d.b))
+	seen := map[string]bool{}
+	add := func(t string) {
+		if t != "" && !seen[t] && t != txt && len(d.toks) < 40 {
+			seen[t] = true
+			d.toks = append(d.toks, t)
+		}
+	}
+	parts := strings.FieldsFunc(txt, func(r rune) bool { return strings.ContainsRune("-_./:@= \t\n", r) })
+	for _, t := range shortTokens {
+		add(t)
+	}
+	for _, p := range parts {
+		add(p)
+	}
+	if n := len(parts); n >= 2 {
+		add(parts[n-2] + "-" + parts[n-1])
+		add(parts[0] + "-" + parts[1])
+		add(parts[n-1] + "-" + parts[0])
+	}
+	return d.toks
+}
 
 func (d *sdoc) hasAffix(s span) bool {
 	v := string(d.b[s.a+1 : s.b-1])
@@ -584,6 +632,9 @@ func structPlan(orig []byte, kws []string, perFamily, perTarget int) []string {
 			n = perFamily
 		}
 		pt := perTarget
+		if f == "tok" {
+			pt = 0 // a small single-value file: every token
+		}
 		if strings.HasSuffix(f, "affix") && perTarget > 0 { // the overlapping prefix+suffix strings come first in d.affix: the first 8 on the first 6 targets
 			pt = 8
 			if n > 6 {
